@@ -211,8 +211,11 @@ func (f *fileData) save() error {
 // Like an unlinked os.File, the handle then keeps working on data that no longer has a name.
 func (f *file) saveIfLinked() error {
 	_, err := f.fs.getFileRecord(f.path)
-	if errors.Is(err, hackpadfs.ErrNotExist) {
+	switch {
+	case errors.Is(err, hackpadfs.ErrNotExist):
 		return nil
+	case err != nil:
+		return err
 	}
 	return f.save()
 }
